@@ -82,6 +82,26 @@ T = {
  "C18-r4-cref-printer-const-type": ("C18", "value reached through reference_wrapper<const X> (const X& parameter): user printer / pair / tuple streamers missed, hex dump instead", "C18"),
  "C19-r4-times0-then-times-accepted": ("C19", "a second TIMES / RT_TIMES after a limit with upper bound 0 (TIMES(0), FORBID_CALL): compiles silently", "C19 (after the deterministic group of double call-limit misuse was added to engine K; random row sampling had a 3-in-4 chance per draw to miss the shape)"),
  "C20-r4-co-throw-captures-by-reference": ("C20", "CO_THROW naming a local that changes after the expectation was written: evaluated by reference", "C20 (after engine Q overwrote the locals named by plain clauses once the expectations are written, and gave the LR_ locals their values only then)"),
+ "C01-r5-retire-predecessors-when-satisfied": ("C01", "sequence_matcher::retire_predecessors only when satisfied: a satisfied, unsaturated predecessor stays callable after a successor with lower bound >= 2 took its first call (third site for this observable)", "C01"),
+ "C02-r5-last-with-decides": ("C02", "only the last WITH clause decides (same change as C01-r3, independently produced): the newer expectation takes calls an earlier WITH rejects", "C02"),
+ "C03-r5-named-forbid-v-with-clause-unbounded": ("C03", "NAMED_FORBID_CALL_V with a clause argument on a void function expands with INFINITY_TIMES: not saturated, calls accepted", "C03 (literal site 30, added after C07-r2)"),
+ "C04-r5-reported-flag-reset-by-match": ("C04", "every accepted call resets the 'already named in a report' flag: lower bound >= 2, named in a no-match report, one more matching call, end of life: reported a second time", "C04"),
+ "C05-r5-find-prefers-newest-over-eligible": ("C05", "find() returns the newest match when no match has cost 0: a blocked newest expectation shadows an older eligible one that has to pass over a satisfied predecessor", "C05"),
+ "C06-r5-count-before-sequence-validation": ("C06", "a call rejected as out of sequence is counted (same change as C03-r2 / C04-r3): is_completed() true too early, exact-bound expectation never saturates, listed at teardown", "C06"),
+ "C07-r5-forbid-check-after-count": ("C07", "the forbidden check runs after increment_call: a forbid that caught a call answers is_saturated() false", "C07"),
+ "C08-r5-return-evaluated-twice-when-traced": ("C08", "tracer alive and a non-void function: the RETURN expression is evaluated twice, the caller gets the second value", "C08"),
+ "C09-r5-side-effect-11th-by-copy": ("C09", "arity >= 11, SIDE_EFFECT / LR_SIDE_EFFECT naming _11: a copy (out-parameter write lost, identity lost)", "C09"),
+ "C10-r5-re-nosubs-backreference": ("C10", "re() compiles its pattern with nosubs: a pattern with a back-reference throws std::regex_error when the expectation is written", "C10 (after patterns with a back-reference, an optional group, a counted repeat and a word boundary were added to engine M)"),
+ "C11-r5-collection-moved-from-named-container": ("C11", "collection forms move the expected values out of a named non-const container: the second matcher built from it describes the empty list", "C11 (after engine R used its named container for two matchers)"),
+ "C12-r5-decommission-other-mutex": ("C12", "mock destruction locks another mutex instance than everything else: an expectation released by one thread while another thread destroys the mock", "C12 (TSan; engine T hands an expectation on a thread's private mock over to another thread: adopt)"),
+ "C13-r5-notify-no-retire-on-saturation": ("C06", "revert of fix 574fb70, delivered for C13: a fulfilled sequenced destruction requirement is listed as missing when the sequence object is destroyed. C13's statement sets sequence constraints aside; what is broken is C06 ('an expectation that saturates leaves its sequences and is no longer listed')", "C06 (not C13: the C13 check rightly stays quiet)"),
+ "C14-r5-null-on-move-assignment-nulls": ("C14", "assignment onto a deathwatched object nulls its chain of requirements (variant of the defect repaired by 904b8e3)", "C14 (replay fixed-dw-assign and generation)"),
+ "C15-r5-forbid-once-reported": ("C15", "same change as C03 / C07-forbid-once-reported (round 1), independently produced for C15", "C15"),
+ "C16-r5-ok-report-skipped-in-catch": ("C16", "accepted call made inside a catch handler: no OK report", "C16 (because operations are also executed inside a catch handler since round 4)"),
+ "C17-r5-record-dropped-when-tracer-created-in-call": ("C17", "a side effect of the call constructs a further tracer that is still alive when the call ends: the call's record is dropped", "C17 (after side effects that construct a tracer were added to engine W)"),
+ "C18-r5-streamable-range-no-sentry": ("C18", "std::string / string_view printed on a stream that carries a width: padded, width consumed", "C18"),
+ "C19-r5-const-mock10-skips-arity-check": ("C19", "MAKE_CONST_MOCK10 with a signature that does not have 10 parameters: rejected without the documented message", "C19 (after the deterministic arity group - every n of MAKE_MOCKn / MAKE_CONST_MOCKn - was added to engine K)"),
+ "C20-r5-void-co-throw-before-yields": ("C20", "generator with >= 1 CO_YIELD ending in CO_THROW: the exception is raised before any value is yielded", "C20"),
  "C20-r2-shared-param-tuple-per-expectation": ("C20", "two calls with different arguments on one coroutine expectation, a clause naming _N evaluated after the later call", "C20 (after reference-parameter sites were added to engine Q)"),
 }
 logs = ""
